@@ -1184,6 +1184,29 @@ func (c *SpecCtx) call(e *Expr, pos bool) *Term {
 		x.reg.SeqSort("Ev")
 		v := arg(0)
 		return App("Ev", "ev", IntLit(evClear), App("Int", "ival", v), IntLit(1), mk("Str", "sempty"))
+	case "evMark":
+		// evMark("Func", a, b): ghost marker of a logged library function call
+		x.reg.SeqSort("Ev")
+		b := IntLit(0)
+		if len(e.Args) > 2 {
+			b = arg(2)
+			if b.Sort == "Bool" {
+				b = Ite(b, IntLit(1), IntLit(0))
+			}
+		}
+		return App("Ev", "ev", IntLit(evMark), arg(1), b, x.reg.StrLit(strArg(0)))
+	case "callOK":
+		// callOK("Func", i): the logged call of Func whose marker is at trace position i returned a nil error
+		x.reg.DeclFunc("callOK", []string{"Str", "Int"}, "Bool")
+		return App("Bool", "callOK", x.reg.StrLit(strArg(0)), arg(1))
+	case "callEnd":
+		// callEnd("Func", i): length of the trace when the logged call of Func marked at position i returned
+		x.reg.DeclFunc("callEnd", []string{"Str", "Int"}, "Int")
+		return App("Int", "callEnd", x.reg.StrLit(strArg(0)), arg(1))
+	case "isMark":
+		// isMark(e, "Func"): e is the marker of a call of Func
+		ev := arg(0)
+		return And(Eq(App("Int", "ekind", ev), IntLit(evMark)), Eq(App("Str", "es", ev), x.reg.StrLit(strArg(1))))
 	case "evEnv":
 		x.reg.SeqSort("Ev")
 		return App("Ev", "ev", IntLit(evEnv), IntLit(0), IntLit(0), arg(0))
